@@ -361,6 +361,13 @@ impl AssemblyCode {
                                 | AsmMnemonic::BPL
                                 | AsmMnemonic::PHP
                         );
+                        // A store changes no flag: the instruction that counts is the one after it
+                        if matches!(
+                            i3.mnemonic,
+                            AsmMnemonic::STA | AsmMnemonic::STX | AsmMnemonic::STY
+                        ) {
+                            continue;
+                        }
                         break;
                     }
                     Some(AsmLine::Dummy) | Some(AsmLine::Comment(_)) => continue,
